@@ -8,23 +8,45 @@
  *     nq=<requests queued during the handshake> inj=<0 | 1 cleartext CoAP from a new peer | 2 cleartext CoAP from the client's address>
  *     rel=<release the client session after this many ms of virtual time; 0 = never> idcb=<1: server checks the identity, 0: one key for all>
  *     drop=<indices of datagrams to lose, e.g. 0,3>
+ *     snik=<name:key,...>  the server keeps per-server-name keys (validate_sni_call_back; a name not listed is refused)   sni=<name the client asks for>
+ *     warm=<name>  before the judged session another client session asks for that name with the right key and completes one exchange (not traced):
+ *                  the server has then seen the name before
  *   E
  */
 #include "simnet.h"
 #include <string.h>
 #include <stdlib.h>
+#include <strings.h>
 
 #define MAXK 8
 static coap_context_t *sctx, *cctx;
 static coap_session_t *csess;
 static coap_address_t srv_addr;
 static char cid[64], ckey[64], hint[64], skid[MAXK][64], skkey[MAXK][64];
-static int nsk, acc, nq, inj, rel, idcb, emitted;
+static int nsk, acc, nq, inj, rel, idcb, emitted, nsni, muted;
+static char sni[64], warm[64], snin[MAXK][64], snikey[MAXK][64];
+static coap_dtls_spsk_info_t sni_info;
+static coap_dtls_cpsk_info_t winfo;       /* what the warm-up session presents */
 static int drops[32], ndrops;
 static coap_dtls_cpsk_info_t cinfo;
 static coap_bin_const_t skeybin;
 static int in_teardown;
 
+#define LOG if (!muted) fprintf
+static const coap_dtls_spsk_info_t *sni_cb(const char *name, coap_session_t *s, void *arg) {
+  int i;
+  (void)s; (void)arg;
+  for (i = 0; i < nsni; i++)
+    if (!strcasecmp(name, snin[i])) {
+      memset(&sni_info, 0, sizeof(sni_info));
+      sni_info.hint.s = (const uint8_t *)hint; sni_info.hint.length = strlen(hint);
+      sni_info.key.s = (const uint8_t *)snikey[i]; sni_info.key.length = strlen(snikey[i]);
+      LOG(sim_trace, "{\"e\":\"SniCheck\",\"known\":true}\n");
+      return &sni_info;
+    }
+  LOG(sim_trace, "{\"e\":\"SniCheck\",\"known\":false}\n");
+  return NULL;
+}
 static void arr(const uint8_t *b, size_t n) {
   size_t i;
   fputc('[', sim_trace);
@@ -38,29 +60,32 @@ static const coap_bin_const_t *id_cb(coap_bin_const_t *identity, coap_session_t 
     if (strlen(skid[i]) == identity->length && memcmp(skid[i], identity->s, identity->length) == 0) {
       skeybin.s = (const uint8_t *)skkey[i];
       skeybin.length = strlen(skkey[i]);
-      fprintf(sim_trace, "{\"e\":\"IdCheck\",\"known\":true}\n");
+      LOG(sim_trace, "{\"e\":\"IdCheck\",\"known\":true}\n");
       return &skeybin;
     }
-  fprintf(sim_trace, "{\"e\":\"IdCheck\",\"known\":false}\n");
+  LOG(sim_trace, "{\"e\":\"IdCheck\",\"known\":false}\n");
   return NULL;
 }
 static const coap_dtls_cpsk_info_t *ih_cb(coap_str_const_t *h, coap_session_t *s, void *arg) {
   (void)s; (void)arg; (void)h;
+  if (muted) return &winfo;
   fprintf(sim_trace, "{\"e\":\"HintCheck\",\"accepted\":%s}\n", acc ? "true" : "false");
   return acc ? &cinfo : NULL;
 }
 static void h_get(coap_resource_t *r, coap_session_t *s, const coap_pdu_t *req, const coap_string_t *q, coap_pdu_t *resp) {
   coap_bin_const_t t = coap_pdu_get_token(req);
   (void)r; (void)q;
+  coap_pdu_set_code(resp, COAP_RESPONSE_CODE_CONTENT);
+  coap_add_data(resp, 2, (const uint8_t *)"ok");
+  if (muted) return;
   fprintf(sim_trace, "{\"e\":\"SrvReq\",\"t\":%llu,\"proto\":%d,\"tok\":", (unsigned long long)sim_now, (int)coap_session_get_proto(s));
   arr(t.s, t.length <= 8 ? t.length : 8);
   fputs("}\n", sim_trace);
-  coap_pdu_set_code(resp, COAP_RESPONSE_CODE_CONTENT);
-  coap_add_data(resp, 2, (const uint8_t *)"ok");
 }
 static coap_response_t h_resp(coap_session_t *s, const coap_pdu_t *sent, const coap_pdu_t *rcv, const coap_mid_t mid) {
   coap_bin_const_t t = coap_pdu_get_token(rcv);
   (void)s; (void)sent; (void)mid;
+  if (muted) { muted = 2; return COAP_RESPONSE_OK; }
   fprintf(sim_trace, "{\"e\":\"Resp\",\"t\":%llu,\"code\":%d,\"tok\":", (unsigned long long)sim_now, coap_pdu_get_code(rcv));
   arr(t.s, t.length <= 8 ? t.length : 8);
   fputs("}\n", sim_trace);
@@ -68,23 +93,28 @@ static coap_response_t h_resp(coap_session_t *s, const coap_pdu_t *sent, const c
 }
 static void h_nack(coap_session_t *s, const coap_pdu_t *sent, const coap_nack_reason_t reason, const coap_mid_t mid) {
   (void)s; (void)mid;
+  if (muted) return;
   fprintf(sim_trace, "{\"e\":\"Nack\",\"t\":%llu,\"reason\":%d,\"teardown\":%s,\"tok\":", (unsigned long long)sim_now, (int)reason, in_teardown ? "true" : "false");
   if (sent) { coap_bin_const_t t = coap_pdu_get_token(sent); arr(t.s, t.length <= 8 ? t.length : 8); } else fputs("[-1]", sim_trace);
   fputs("}\n", sim_trace);
 }
 static int h_cevent(coap_session_t *s, const coap_event_t ev) {
   (void)s;
+  if (muted) return 0;
   fprintf(sim_trace, "{\"e\":\"Ev\",\"side\":\"c\",\"ev\":%d,\"t\":%llu}\n", (int)ev, (unsigned long long)sim_now);
   return 0;
 }
 static int h_sevent(coap_session_t *s, const coap_event_t ev) {
   (void)s;
+  if (muted) return 0;
   fprintf(sim_trace, "{\"e\":\"Ev\",\"side\":\"s\",\"ev\":%d,\"t\":%llu}\n", (int)ev, (unsigned long long)sim_now);
   return 0;
 }
 static void on_tx(int node, coap_session_t *s, const sim_dgram_t *dg, sim_verdict_t *v) {
-  int idx = emitted++, i;
+  int idx, i;
   (void)node;
+  if (muted) return;
+  idx = emitted++;
   fprintf(sim_trace, "{\"e\":\"Wire\",\"i\":%d,\"from\":\"%s\",\"b0\":%d,\"b1\":%d,\"len\":%zu}\n", idx, (s && s->context == cctx) ? "c" : "s",
           dg->len ? dg->data[0] : -1, dg->len > 1 ? dg->data[1] : -1, dg->len);
   for (i = 0; i < ndrops; i++) if (drops[i] == idx) { v->copies = 0; fprintf(sim_trace, "{\"e\":\"Dropped\",\"i\":%d}\n", idx); }
@@ -114,15 +144,18 @@ static void run_case(int id) {
   int i;
   sim_reset(1000);
   emitted = 0;
-  fprintf(sim_trace, "{\"e\":\"Reset\",\"id\":%d,\"cid\":\"%s\",\"ckey\":\"%s\",\"hint\":\"%s\",\"acc\":%s,\"idcb\":%s,\"nq\":%d,\"inj\":%d,\"rel\":%d,\"ndrops\":%d,\"table\":[",
-          id, cid, ckey, hint, acc ? "true" : "false", idcb ? "true" : "false", nq, inj, rel, ndrops);
+  fprintf(sim_trace, "{\"e\":\"Reset\",\"id\":%d,\"cid\":\"%s\",\"ckey\":\"%s\",\"hint\":\"%s\",\"acc\":%s,\"idcb\":%s,\"nq\":%d,\"inj\":%d,\"rel\":%d,\"ndrops\":%d,\"snicb\":%s,\"sni\":\"%s\",\"warm\":\"%s\",\"table\":[",
+          id, cid, ckey, hint, acc ? "true" : "false", idcb ? "true" : "false", nq, inj, rel, ndrops, nsni ? "true" : "false", sni, warm);
   for (i = 0; i < nsk; i++) fprintf(sim_trace, "%s[\"%s\",\"%s\"]", i ? "," : "", skid[i], skkey[i]);
+  fputs("],\"snitable\":[", sim_trace);
+  for (i = 0; i < nsni; i++) fprintf(sim_trace, "%s[\"%s\",\"%s\"]", i ? "," : "", snin[i], snikey[i]);
   fputs("]}\n", sim_trace);
   fflush(sim_trace);
   sctx = coap_new_context(NULL);
   memset(&spsk, 0, sizeof(spsk));
   spsk.version = COAP_DTLS_SPSK_SETUP_VERSION;
   if (idcb) spsk.validate_id_call_back = id_cb;
+  if (nsni) spsk.validate_sni_call_back = sni_cb;
   spsk.psk_info.hint.s = (const uint8_t *)hint;
   spsk.psk_info.hint.length = strlen(hint);
   spsk.psk_info.key.s = (const uint8_t *)skkey[0];
@@ -148,6 +181,33 @@ static void run_case(int id) {
   cinfo.identity.s = (const uint8_t *)cid; cinfo.identity.length = strlen(cid);
   cinfo.key.s = (const uint8_t *)ckey; cinfo.key.length = strlen(ckey);
   cpsk.psk_info = cinfo;
+  if (warm[0]) {
+    /* a first session that asks for the name with the right key: handshake, one exchange, released.  Nothing of it is traced. */
+    coap_dtls_cpsk_t w = cpsk;
+    coap_session_t *ws;
+    coap_pdu_t *pdu;
+    uint8_t tk = 0x77;
+    int k;
+    for (k = 0; k < nsni && strcasecmp(snin[k], warm); k++);
+    muted = 1;
+    w.client_sni = warm;
+    w.psk_info.key.s = (const uint8_t *)(k < nsni ? snikey[k] : skkey[0]);
+    w.psk_info.key.length = strlen((const char *)w.psk_info.key.s);
+    winfo = w.psk_info;
+    ws = coap_new_client_session_psk2(cctx, NULL, &srv_addr, COAP_PROTO_DTLS, &w);
+    if (ws) {
+      pdu = coap_new_pdu(COAP_MESSAGE_CON, COAP_REQUEST_CODE_GET, ws);
+      coap_add_token(pdu, 1, &tk);
+      coap_add_option(pdu, COAP_OPTION_URI_PATH, 1, (const uint8_t *)"r");
+      coap_send(ws, pdu);
+      sim_run(sim_now + 30000);
+      coap_session_release(ws);
+      sim_run(sim_now + 1000);
+    }
+    fprintf(sim_trace, "{\"e\":\"Warm\",\"answered\":%s}\n", muted == 2 ? "true" : "false");
+    muted = 0;
+  }
+  if (sni[0]) cpsk.client_sni = sni;
   csess = coap_new_client_session_psk2(cctx, NULL, &srv_addr, COAP_PROTO_DTLS, &cpsk);
   if (!csess) fputs("{\"e\":\"NoSession\"}\n", sim_trace);
   for (i = 1; csess && i <= nq; i++) {
@@ -228,6 +288,18 @@ int main(int argc, char **argv) {
         snprintf(skid[nsk], sizeof(skid[nsk]), "%s", t);
         snprintf(skkey[nsk], sizeof(skkey[nsk]), "%s", c + 1);
         nsk++;
+      }
+      field(line, " sni=", sni, sizeof(sni));
+      field(line, " warm=", warm, sizeof(warm));
+      field(line, " snik=", buf, sizeof(buf));
+      nsni = 0;
+      for (t = strtok(buf, ","); t && nsni < MAXK; t = strtok(NULL, ",")) {
+        char *c = strchr(t, ':');
+        if (!c) continue;
+        *c = 0;
+        snprintf(snin[nsni], sizeof(snin[nsni]), "%s", t);
+        snprintf(snikey[nsni], sizeof(snikey[nsni]), "%s", c + 1);
+        nsni++;
       }
     } else if (line[0] == 'E') {
       run_case(id);
